@@ -483,4 +483,76 @@ theorem casmStepWith_v2_ignores_compiledBad (chk : Bool) (db : IDB) (h : Header)
   simp only [hp, hv, if_true]
   rw [casmV2DeclaredChecked_cairo0_only h.number cs cs' hc]
 
+/-! ### round 6: the state diff's `Length()` against its content; compensating changes -/
+
+/-- `StateDiff.Length()` is a function of what `StateDiff.Hash()` commits (`DiffView`): the two section counts,
+the sorted Cairo-0 list, the storage map and the nonces -/
+theorem stateDiffLength_of_view (d d' : StateDiff) (h : diffView d = diffView d') :
+    stateDiffLength d = stateDiffLength d' := by
+  simp only [diffView, DiffView.mk.injEq] at h
+  obtain ⟨h1, _, h3, _, h5, h6, h7⟩ := h
+  have h5' := congrArg List.length h5
+  simp only [sortNat_length] at h5'
+  unfold stateDiffLength
+  rw [h6, h7]
+  omega
+
+theorem storageSum_zero_iff (s : List (Nat × FMap)) :
+    (s.map (fun e => e.2.length)).sum = 0 ↔ ∀ e ∈ s, e.2 = [] := by
+  induction s with
+  | nil => simp
+  | cons a as ih =>
+    simp only [List.map_cons, List.sum_cons, Nat.add_eq_zero_iff, ih, List.length_eq_zero_iff, List.mem_cons, forall_eq_or_imp]
+
+/-- exactly the diffs with `Length() = 0`: every list empty — but `StorageDiffs` may hold any number of
+addresses with an EMPTY slot map -/
+theorem stateDiffLength_zero_iff (d : StateDiff) : stateDiffLength d = 0 ↔
+    ((∀ e ∈ d.storage, e.2 = []) ∧ d.nonces = [] ∧ d.deployed = [] ∧ d.declaredV0 = [] ∧ d.declaredV1 = [] ∧
+      d.replaced = [] ∧ d.migrated = []) := by
+  unfold stateDiffLength
+  simp only [Nat.add_eq_zero_iff, storageSum_zero_iff, List.length_eq_zero_iff, and_assoc]
+
+/-- both Poseidon formats: equal block hashes force equal state-diff preimages -/
+theorem sameHash_diffFlat (net : Net) (b b' : Block) (sd sd' : StateDiff) (ov ov' : Option Term) (x : Term)
+    (hf : dispatch net b.header.number b.header.version = some .v0134 ∨ dispatch net b.header.number b.header.version = some .v0132)
+    (h : blockHash net b sd ov = some x) (h' : blockHash net b' sd' ov' = some x) :
+    stateDiffFlat sd = stateDiffFlat sd' := by
+  rcases hf with hf | hf
+  · exact congrArg (fun v => v.diffFlat) (blockHash_v0134_inj net b b' sd sd' ov ov' x hf h h').2
+  · exact congrArg (fun v => v.diffFlat) (blockHash_v0132_inj net b b' sd sd' ov ov' x hf h h').2
+
+/-- a state diff changed under the same declared hash — whether or not its `Length()` changes — is never accepted -/
+theorem diff_change_rejected' {σ : Type} (sem : StateSem σ) (net : Net) (c c' d : Chain σ) (B B' : Bundle)
+    (hacc : accept sem net c B = .ok c')
+    (hu : inUnverifiable net B.block.header.number = false)
+    (hu' : inUnverifiable net B'.block.header.number = false)
+    (hf : dispatch net B.block.header.number B.block.header.version = some .v0134 ∨
+          dispatch net B.block.header.number B.block.header.version = some .v0132)
+    (hsame : B'.block.header.hash = B.block.header.hash)
+    (hdiff : stateDiffFlat B'.su.diff ≠ stateDiffFlat B.su.diff) :
+    ∃ e, accept sem net d B' = .error e := by
+  cases hacc' : accept sem net d B' with
+  | error e => exact ⟨e, rfl⟩
+  | ok d' =>
+    obtain ⟨ov, _, hh⟩ := (accept_ok sem net c c' B hacc).1.hash hu
+    obtain ⟨ov', _, hh'⟩ := (accept_ok sem net d d' B' hacc').1.hash hu'
+    rw [hsame] at hh'
+    exact absurd (sameHash_diffFlat net B.block B'.block B.su.diff B'.su.diff ov ov' _ hf hh hh').symm hdiff
+
+/-- `VerifyClassHashes` walks `newClasses`, not the diff: one Sierra entry whose definition does not hash to its key
+fails `SanityCheckNewHeight` with the class-hash error, whatever the state diff declares -/
+theorem sanityCheck_classHash_of_bad_entry (net : Net) (B : Bundle) (k : Nat) (cd : ClassDef)
+    (hm : (k, cd) ∈ B.classes) (hs : cd.cairo0 = false) (hbad : cd.computedHash ≠ k)
+    (h1 : B.block.header.hash = B.su.blockHash) (h2 : B.block.header.stateRoot = B.su.newRoot) :
+    sanityCheck net B = .error .classHash := by
+  have hv : verifyClassHashes B.classes = false := by
+    cases h : verifyClassHashes B.classes with
+    | false => rfl
+    | true =>
+      simp only [verifyClassHashes, List.all_eq_true] at h
+      have := h (k, cd) hm
+      simp [hs] at this
+      exact absurd this hbad
+  simp [sanityCheck, h1, h2, hv]
+
 end Juno.C02
